@@ -144,10 +144,30 @@ def gen_cases(rng, n):
             for k in range(len(sequence) - 1):
                 if rng.random() < 0.85:
                     connects.append((k, k + 1, rng.randrange(sizes[k]), rng.randrange(sizes[k + 1])))
+                    # several bonds between the same two blocks (written in one record when 'grouped')
+                    while rng.random() < 0.35:
+                        extra = (k, k + 1, rng.randrange(sizes[k]), rng.randrange(sizes[k + 1]))
+                        if extra not in connects:   # the same bond twice is one edge of the graph; not generated
+                            connects.append(extra)
             mods = [(rng.randrange(len(sequence)), rng.choice(['OH', 'NH2'])) for _ in range(rng.randint(0, 2))]
             tagsl = [(rng.randrange(len(sequence)), 'chiral', rng.choice(['R', 'S']))] if rng.random() < 0.4 else []
-            cases.append({'kind': 'gen', 'macros': macros, 'sequence': sequence, 'connects': connects, 'mods': mods, 'labels': tagsl, 'sizes': sizes})
+            cases.append({'kind': 'gen', 'macros': macros, 'sequence': sequence, 'connects': connects, 'mods': mods, 'labels': tagsl, 'sizes': sizes,
+                          'grouped': rng.random() < 0.6})
     return cases
+
+
+def connect_records(case):
+    """the -connects strings: one record per bond, or (documented by _add_edges) all consecutive bonds of a
+    block pair in one record 'i:j:a-b,c-d'"""
+    recs = []
+    last = None
+    for i, j, a, b in case['connects']:
+        if case.get('grouped') and last == (i, j):
+            recs[-1] += f',{a}-{b}'
+        else:
+            recs.append(f'{i}:{j}:{a}-{b}')
+        last = (i, j)
+    return recs
 
 
 def expected(case):
@@ -195,7 +215,7 @@ def run_impl(case, wd):
     out = pathlib.Path(wd) / 'g.json'
     try:
         quiet(gen_seq, 'x', out, case['sequence'], macro_strings=[f'{t}:{lev}:{bf}:{res}-1.0' for t, lev, bf, res in case['macros']],
-              connects=[f'{i}:{j}:{a}-{b}' for i, j, a, b in case['connects']], modifications=[f'{i}:{n}' for i, n in case['mods']],
+              connects=connect_records(case), modifications=[f'{i}:{n}' for i, n in case['mods']],
               tags=[f'{i}:{attr}:{v}-1.0' for i, attr, v in case['labels']])
     except Exception as exc:  # noqa
         return ('error', type(exc).__name__)
@@ -226,7 +246,7 @@ def gen_judge(case, impl, wd):
     from polyply.src.gen_seq import generate_seq_graph, MacroString, _apply_termini_modifications, _tag_nodes
     from polyply.src.simple_seq_parsers import parse_json
     macros = {t: MacroString(f'{t}:{lev}:{bf}:{res}-1.0') for t, lev, bf, res in case['macros']}
-    g = generate_seq_graph(case['sequence'], macros, [f'{i}:{j}:{a}-{b}' for i, j, a, b in case['connects']])
+    g = generate_seq_graph(case['sequence'], macros, connect_records(case))
     _apply_termini_modifications(g, [f'{i}:{n}' for i, n in case['mods']])
     _tag_nodes(g, [f'{i}:{attr}:{v}-1.0' for i, attr, v in case['labels']])
     back = parse_json(pathlib.Path(wd) / 'g.json')
@@ -253,6 +273,17 @@ def gen_judge(case, impl, wd):
     if len(g.nodes) != off:
         bad.append(f"{len(g.nodes)} residues, the sequence of macros states {off}")
         return bad
+    # edges: the trees of the blocks plus exactly the bonds the connect records state
+    starts0 = [sum(case['sizes'][:i]) for i in range(len(case['sizes']))]
+    want_edges = set()
+    for idx, (t, size) in enumerate(zip(case['sequence'], case['sizes'])):
+        bf = next(m for m in case['macros'] if m[0] == t)[2]
+        want_edges |= {(starts0[idx] + (kk - 1) // bf, starts0[idx] + kk) for kk in range(1, size)}
+    want_edges |= {tuple(sorted((starts0[i] + a, starts0[j] + b))) for i, j, a, b in case['connects']}
+    got_edges = {tuple(sorted(e)) for e in back.edges}
+    if got_edges != want_edges:
+        bad.append(f"edges of the written graph differ from the specification (block trees + connect records {connect_records(case)}): "
+                   f"missing {sorted(want_edges - got_edges)[:4]}, unexpected {sorted(got_edges - want_edges)[:4]}")
     # residue names: the macro's residue, except termini (degree 1 in the whole molecule) of renamed blocks
     want = []
     for idx, (t, size) in enumerate(zip(case['sequence'], case['sizes'])):
@@ -292,6 +323,8 @@ def run(ctx):
             ctx.case(fp, nontrivial=nres >= 3 and (len(case.get('lines', [])) >= 2 or len(case.get('sequence', [])) >= 2 or case['kind'] == 'seq'),
                      sample={k: v for k, v in case.items() if k in ('kind', 'ms', 'lines', 'alpha', 'circular', 'macros', 'sequence', 'connects', 'mods')})
             ctx.feature('kind_' + case['kind'])
+            if case.get('grouped') and any(',' in r for r in connect_records(case)):
+                ctx.feature('several_bonds_in_one_connect_record')
             if impl[0] == 'error':
                 ctx.feature('rejected')
             if case.get('circular'):
